@@ -120,31 +120,22 @@ def _tick_increment(p, tic_call):
     if tic_call.args or tic_call.keywords:
         raise Undecided("ticToc() is called with an explicit dt in stepForward", tic_call)
     prm = tic.params[1] if len(tic.params) > 1 else None
+    # path-wise: the value of self.time at exit on the paths taken when dt is omitted, however the branch is written
+    from rsa.terms import NotEvaluable, expand_poly, falsy_param_states, path_states
+
+    try:
+        states = falsy_param_states(path_states(tic), prm) if prm else path_states(tic)
+    except NotEvaluable as ex:
+        raise Undecided(f"cannot read the default time increment of ScenarioClock.ticToc ({ex})", tic.node) from None
     incs = []
-    for n in walk_no_nested(tic.node):
-        if isinstance(n, ast.AugAssign) and isinstance(n.op, ast.Add) and isinstance(n.target, ast.Attribute) and n.target.attr == "time":
-            incs.append(n)
-    # the branch taken when dt is None / falsy
-    for n in walk_no_nested(tic.node):
-        if isinstance(n, ast.If):
-            test = n.test
-            neg = isinstance(test, ast.UnaryOp) and isinstance(test.op, ast.Not) and isinstance(test.operand, ast.Name) and test.operand.id == prm
-            isnone = (
-                isinstance(test, ast.Compare)
-                and isinstance(test.left, ast.Name)
-                and test.left.id == prm
-                and len(test.ops) == 1
-                and isinstance(test.ops[0], ast.Is)
-                and isinstance(test.comparators[0], ast.Constant)
-                and test.comparators[0].value is None
-            )
-            pos = isinstance(test, ast.Name) and test.id == prm
-            branch = n.body if (neg or isnone) else (n.orelse if pos else None)
-            if branch is None:
-                continue
-            br_incs = [s for s in branch if s in incs]
-            if len(br_incs) == 1 and len(branch) == 1:
-                return br_incs[0].value
+    for s in states:
+        v = s["env"].get("self.time")
+        if isinstance(v, ast.BinOp) and isinstance(v.op, ast.Add) and unparse(v.left) == "self.time":
+            incs.append(v.right)
+        else:
+            raise Undecided("ScenarioClock.ticToc does not advance self.time by an increment on the default path", tic.node)
+    if incs and all(unparse(x) == unparse(incs[0]) for x in incs):
+        return incs[0]
     raise Undecided("cannot read the default time increment of ScenarioClock.ticToc", tic.node)
 
 
@@ -283,6 +274,89 @@ def _filter_predicates(fn):
     return comps
 
 
+def query_criteria(fn):
+    """Abstract interpretation of a query-building function: for every path to its return, the filter criteria of the
+    query that is handed to the database, with the branch conditions of the path.  Understands `Query(X)`,
+    `.filter(a, b)` / `.where(...)` chains (sqlalchemy builders are pure: only an assigned or chained result counts),
+    `.join(...)` (no criteria), lists of criteria with `.append` / `.extend` / `+=`, and `filter(*criteria)`.
+    Returns [(criteria exprs, [(test, polarity)])]; raises Undecided for anything else that touches the query."""
+    cfg = cfg_of(fn)
+    rets = [n for n in cfg.nodes if n.kind == "return"]
+    require(rets, "no return", fn.node)
+    if any(n.kind == "loop" or n.label == "while-head" for n in cfg.nodes):
+        raise Undecided("query builder contains a loop", fn.node)
+    out = []
+
+    def ev(e, env):
+        """('query', [criteria]) | ('list', [exprs]) | None"""
+        if isinstance(e, ast.Name) and e.id in env:
+            return env[e.id]
+        if isinstance(e, (ast.List, ast.Tuple)):
+            return ("list", list(e.elts))
+        if isinstance(e, ast.Call):
+            f = e.func
+            if isinstance(f, ast.Name) and f.id == "Query":
+                return ("query", [])
+            if isinstance(f, ast.Attribute):
+                base = ev(f.value, env)
+                if base is not None and base[0] == "query":
+                    if f.attr in ("filter", "where"):
+                        crit = list(base[1])
+                        for a in e.args:
+                            if isinstance(a, ast.Starred):
+                                lv = ev(a.value, env)
+                                if lv is None or lv[0] != "list":
+                                    raise Undecided(f"criteria `{unparse(a)}` cannot be enumerated", a)
+                                crit += lv[1]
+                            else:
+                                crit.append(a)
+                        return ("query", crit)
+                    if f.attr in ("join", "order_by", "options", "distinct", "outerjoin", "select_from"):
+                        return ("query", list(base[1]))
+                    raise Undecided(f"query method `{f.attr}` not modelled", e)
+                if f.attr == "getData" and e.args:
+                    return ev(e.args[0], env)
+        return None
+
+    for path in cfg.paths(targets=[n.id for n in rets], max_visits=1, limit=200):
+        env = {}
+        conds = []
+        res = None
+        for nid, lab in path:
+            node = cfg.nodes[nid]
+            st = node.ast
+            if node.kind == "cond" and st is not None:
+                conds.append((st, lab))
+            elif node.kind == "stmt" and isinstance(st, ast.Assign) and len(st.targets) == 1 and isinstance(st.targets[0], ast.Name):
+                v = ev(st.value, env)
+                if v is not None:
+                    env[st.targets[0].id] = v
+                else:
+                    env.pop(st.targets[0].id, None)
+            elif node.kind == "stmt" and isinstance(st, ast.AugAssign) and isinstance(st.target, ast.Name) and st.target.id in env and env[st.target.id][0] == "list":
+                v = ev(st.value, env)
+                if v is None or v[0] != "list":
+                    raise Undecided(f"`{unparse(st)}` extends a criteria list with something that cannot be enumerated", st)
+                env[st.target.id] = ("list", env[st.target.id][1] + v[1])
+            elif node.kind == "stmt" and isinstance(st, ast.Expr) and isinstance(st.value, ast.Call) and isinstance(st.value.func, ast.Attribute) and isinstance(st.value.func.value, ast.Name) and st.value.func.value.id in env:
+                nm = st.value.func.value.id
+                kind, items = env[nm]
+                if kind == "list" and st.value.func.attr == "append" and st.value.args:
+                    env[nm] = ("list", items + [st.value.args[0]])
+                elif kind == "list" and st.value.func.attr == "extend" and st.value.args:
+                    v = ev(st.value.args[0], env)
+                    if v is None or v[0] != "list":
+                        raise Undecided(f"`{unparse(st)}` cannot be enumerated", st)
+                    env[nm] = ("list", items + v[1])
+                # a discarded builder call on a query has no effect (pure) - nothing to record
+            elif node.kind == "return" and st is not None and st.value is not None:
+                res = ev(st.value, env)
+        if res is None or res[0] != "query":
+            raise Undecided("the returned value is not a recognisable query result", fn.node)
+        out.append((res[1], conds))
+    return out
+
+
 def rule_r2(chk, p, t):
     r = chk.rule(
         "C01.R2",
@@ -311,18 +385,14 @@ def rule_r2(chk, p, t):
 
     def one():
         require("julian_date_lb" in params and "julian_date_ub" in params, "getRelevantEvents lost its lb/ub parameters", fn.node)
-        # the time filter must be unconditional
-        cfg = cfg_of(fn)
-        parts = []
-        for n in walk_no_nested(fn.node):
-            if isinstance(n, ast.Call) and isinstance(n.func, ast.Attribute) and n.func.attr in ("filter", "where"):
-                for a in n.args:
-                    if time_related(a):
-                        node = cfg.node_of(n)
-                        if not cfg.must_pass(cfg.exit.id, via_nodes=[node.id]):
-                            raise Undecided("time-window filter is applied conditionally", n)
-                        parts.append(O.from_ast(a, symf))
-        require(parts, "no time-window comparison found in getRelevantEvents", fn.node)
+        # the time filter of the query that reaches the database, on every path
+        per_path = []
+        for crit, _conds in query_criteria(fn):
+            per_path.append(sorted(unparse(a) for a in crit if time_related(a)))
+        require(per_path and all(x for x in per_path), "no time-window comparison reaches the query on some path of getRelevantEvents", fn.node)
+        if any(x != per_path[0] for x in per_path):
+            raise Undecided("the time-window filter differs between paths", fn.node)
+        parts = [O.from_ast(ast.parse(txt, mode="eval").body, symf) for txt in per_path[0]]
         W = O.And(*parts)
         spec = O.And(O.Cmp("<=", "start", "ub"), O.Cmp(">", "end", "lb"))
         assume = O.And(O.Cmp("<", "lb", "ub"), O.Cmp("<=", "start", "end"))
@@ -437,38 +507,40 @@ def rule_r3(chk, p, t):
     gre = p.func("resonaate.data.events.getRelevantEvents")
 
     def scope_filter():
-        cfg = cfg_of(gre)
-        rets = [n for n in cfg.nodes if n.kind == "return"]
-        require(len(rets) == 1, "getRelevantEvents has more than one return", gre.node)
-        ret = rets[0].ast
-        qnames = {n.id for n in ast.walk(ret.value) if isinstance(n, ast.Name)}
-        found = False
-        for n in walk_no_nested(gre.node):
-            if isinstance(n, ast.Assign) and isinstance(n.value, ast.Call) and isinstance(n.value.func, ast.Attribute) and n.value.func.attr in ("filter", "where"):
-                for a in n.value.args:
-                    if isinstance(a, ast.Compare) and isinstance(a.ops[0], ast.Eq):
-                        sides = [a.left, a.comparators[0]]
-                        if any(isinstance(s, ast.Attribute) and s.attr == "scope_instance_id" for s in sides) and any(isinstance(s, ast.Name) and s.id == "scope_instance_id" for s in sides):
-                            tg = n.targets[0]
-                            if isinstance(tg, ast.Name) and tg.id in qnames:
-                                # must be on every path where scope_instance_id is not None
-                                node = cfg.node_of(n)
-                                conds = cfg.control_conditions(node.id)
-                                ok_guard = False
-                                for cid, lab in conds:
-                                    ctest = cfg.nodes[cid].ast
-                                    if isinstance(ctest, ast.Compare) and isinstance(ctest.left, ast.Name) and ctest.left.id == "scope_instance_id":
-                                        if isinstance(ctest.ops[0], ast.IsNot) and lab is True or isinstance(ctest.ops[0], ast.Is) and lab is False:
-                                            ok_guard = True
-                                if ok_guard or not conds:
-                                    found = True
-        # scope equality filter as well
-        scope_ok = False
-        for c in _filter_predicates(gre):
-            if isinstance(c, ast.Compare) and isinstance(c.ops[0], ast.Eq):
-                txt = unparse(c)
-                if ".scope " in txt + " " and "event_scope" in txt and "scope_instance" not in txt:
-                    scope_ok = True
+        paths = query_criteria(gre)
+
+        def is_id_eq(a):
+            if not (isinstance(a, ast.Compare) and len(a.ops) == 1 and isinstance(a.ops[0], ast.Eq)):
+                return False
+            sides = [a.left, a.comparators[0]]
+            return any(isinstance(s_, ast.Attribute) and s_.attr == "scope_instance_id" for s_ in sides) and any(isinstance(s_, ast.Name) and s_.id == "scope_instance_id" for s_ in sides)
+
+        def is_scope_eq(a):
+            txt = unparse(a)
+            return isinstance(a, ast.Compare) and len(a.ops) == 1 and isinstance(a.ops[0], ast.Eq) and ".scope " in txt + " " and "event_scope" in txt and "scope_instance" not in txt
+
+        def id_given(conds):
+            """None: the path is taken only when no id was given; True: only when one was given (`is not None`);
+            'truthy': taken when the id is truthy (0 is excluded); 'any': unconditional."""
+            state = "any"
+            for tst, pol in conds:
+                if isinstance(tst, ast.Compare) and isinstance(tst.left, ast.Name) and tst.left.id == "scope_instance_id" and len(tst.ops) == 1 and isinstance(tst.comparators[0], ast.Constant) and tst.comparators[0].value is None:
+                    given = (isinstance(tst.ops[0], ast.IsNot) and pol is True) or (isinstance(tst.ops[0], ast.Is) and pol is False)
+                    state = True if given else None
+                elif isinstance(tst, ast.Name) and tst.id == "scope_instance_id":
+                    state = "truthy" if pol else "falsy"
+            return state
+
+        found = True
+        for crit, conds in paths:
+            st = id_given(conds)
+            has = any(is_id_eq(a) for a in crit)
+            if st in (True, "any") and not has:
+                found = False
+            if st == "falsy" and not has:
+                # the id filter is skipped for every falsy id, 0 included
+                found = False
+        scope_ok = all(any(is_scope_eq(a) for a in crit) for crit, _c in paths)
         if not found:
             r.violation(
                 gre.qualname,
@@ -1293,19 +1365,25 @@ def rule_r8(chk, p, t):
     def f1():
         from rsa.terms import inline_locals as inl
 
-        cfg = cfg_of(call)
-        rets = [n for n in cfg.nodes if n.kind == "return"]
+        from rsa.terms import NotEvaluable, returned_exprs
+
         tm = call.params[1]
         want = canon(ast.parse(f"{tm} - self.time", mode="eval").body)
         wantn = canon(ast.parse(f"self.time - {tm}", mode="eval").body)
-        nonconst = [n for n in rets if not isinstance(n.ast.value, ast.Constant)]
-        ok = len(nonconst) >= 1 and all(canon(inl(call, n.ast.value)) in (want, wantn) for n in nonconst)
-        consts = [n for n in rets if isinstance(n.ast.value, ast.Constant)]
-        ok_c = all(n.ast.value.value in (0, 0.0) for n in consts)
+        try:
+            vals = returned_exprs(call)
+        except NotEvaluable as ex:
+            raise Undecided(f"impulse event function cannot be evaluated path-wise ({ex})", call.node) from None
+        nonconst = [e for e, _c in vals if not isinstance(e, ast.Constant)]
+        consts = [(e, cs) for e, cs in vals if isinstance(e, ast.Constant)]
+        ok = len(nonconst) >= 1 and all(canon(e) in (want, wantn) for e in nonconst)
+        # a constant is returned only for the exact zero, under a tolerance test of the same difference
+        ok_c = all(e.value in (0, 0.0) and any(pol is True and "fpe_equals" in unparse(tst) for tst, pol in cs) for e, cs in consts)
         if ok and ok_c:
             r.ok(call.qualname, "event value = time - impulse time (zero exactly at the impulse time, sign change across it)", call.loc())
         else:
-            r.violation(call.qualname, f"impulse-event-value:{[unparse(n.ast.value) for n in rets]}", "the impulse event function no longer returns `time - self.time`: the integrator is not stopped at the impulse time", call.loc())
+            r.violation(call.qualname, f"impulse-event-value:{sorted({unparse(e) for e, _c in vals})}", "the impulse event function no longer returns `time - self.time`: the integrator is not stopped at the impulse time", call.loc())
+        _ = inl
         for q in ("discrete_state_change_event.DiscreteStateChangeEvent", "continuous_state_change_event.ContinuousStateChangeEvent"):
             c = p.cls(f"{IE}.{q}")
             term, dirn = c.class_attrs.get("terminal"), c.class_attrs.get("direction")
@@ -1348,7 +1426,14 @@ def rule_r8(chk, p, t):
         cfg = cfg_of(ae)
         adds = [n for n in cfg.nodes if n.kind == "stmt" and isinstance(n.ast, ast.AugAssign) and "getStateChange(" in unparse(n.ast.value)]
         require(len(adds) == 1, "one impulse application expected", ae.node)
-        fired = [n for n in cfg.nodes if n.kind == "cond" and "t_events[" in unparse(n.ast) and ".size" in unparse(n.ast)]
+        te = ae.params[1]
+        aliases = set()
+        for lp_ in [n for n in walk_no_nested(ae.node) if isinstance(n, ast.For)]:
+            if isinstance(lp_.iter, ast.Call) and call_name(lp_.iter) == "zip" and isinstance(lp_.target, ast.Tuple):
+                for a_, tg_ in zip(lp_.iter.args, lp_.target.elts):
+                    if unparse(a_) == te and isinstance(tg_, ast.Name):
+                        aliases.add(tg_.id)
+        fired = [n for n in cfg.nodes if n.kind == "cond" and ".size" in unparse(n.ast) and (f"{te}[" in unparse(n.ast) or any(unparse(n.ast).startswith(a_ + ".") for a_ in aliases))]
         require(fired, "no test of the integrator's reported event times", ae.node)
         cons = ae.qualname + ":simultaneous"
         if cfg.must_pass(adds[0].id, via_edges=[(fired[0].id, True)]):
